@@ -171,7 +171,7 @@ func toInt(v interface{}) int {
 func build(sp Spec, o *obs) func() {
 	return func() {
 		*o = obs{instances: map[string]map[string]bool{}}
-		var ds app.DataScope
+		var ds, leaf app.DataScope
 		var full app.Scope
 		switch sp.Target {
 		case "root":
@@ -181,6 +181,15 @@ func build(sp Spec, o *obs) func() {
 		case "scope":
 			full = scope.New(scope.Params{})
 			ds = full
+		case "middle":
+			// a chain root -> middle -> leaf: sections are opened on the MIDDLE scope, plain reads also come
+			// through the leaf (which has no value of its own and resolves through the middle scope)
+			ds = datascope.NewChild(datascope.New(map[interface{}]interface{}{"c": 0}), map[interface{}]interface{}{})
+			leaf = datascope.NewChild(ds, map[interface{}]interface{}{})
+		case "middle-scope":
+			full = scope.NewChild(scope.New(scope.Params{}), scope.ChildParams{})
+			ds = full
+			leaf = scope.NewChild(full, scope.ChildParams{})
 		}
 		tick := func() int64 { o.clock++; return o.clock }
 		var wg vsched.WaitGroup
@@ -214,6 +223,19 @@ func build(sp Spec, o *obs) func() {
 				case "keys":
 					ds.Keys()
 					ev.kind = "noop"
+				case "inc-dirty":
+					// a section that writes an intermediate value before the final one
+					lk := ds.LockData()
+					v := toInt(lk.Value("c"))
+					lk.SetValue("c", -1000)
+					vsched.Point("inside-locked-section")
+					lk.SetValue("c", v+1)
+					lk.Commit()
+					ev.kind = "inc"
+					ev.out = v
+				case "get-leaf":
+					ev.out = toInt(leaf.Value("c"))
+					ev.kind = "get"
 				case "lock-nested-read":
 					lk := ds.LockData()
 					v := toInt(lk.Value("c"))
@@ -338,6 +360,14 @@ func programs(thorough bool) []Spec {
 			Spec{tg, []string{"inc", "inc", "inc"}, b3},
 			Spec{tg, []string{"inc", "inc", "get"}, b3},
 			Spec{tg, []string{"inc", "set", "get"}, b3},
+		)
+	}
+	for _, tg := range []string{"middle", "middle-scope"} {
+		ps = append(ps,
+			Spec{tg, []string{"inc", "get-leaf"}, b2},
+			Spec{tg, []string{"inc-dirty", "get-leaf"}, b2},
+			Spec{tg, []string{"inc-dirty", "get"}, b2},
+			Spec{tg, []string{"inc", "inc-dirty", "get-leaf"}, b3},
 		)
 	}
 	for _, svc := range []string{"envs", "waits", "tasks"} {
